@@ -136,8 +136,12 @@ GenCmd(ed, sd, t, j) ==
          [] kind \in {"d", "y", "pu"} -> [k |-> kind, loc |-> loc, reg |-> Elem(sd, t, j + 12, RegPool)]
          [] kind \in {"p", "=", "null"} -> [k |-> kind, loc |-> loc]
          [] kind = "k" -> [k |-> "k", loc |-> loc, m |-> Elem(sd, t, j + 12, MarkPool)]
-         [] kind = "s" -> [k |-> "s", loc |-> loc, re |-> Elem(sd, t, j + 12, PatPool), rep |-> Elem(sd, t, j + 13, RepPool),
-                           g |-> Pick(sd, t, j + 14, 2) = 0]
+         [] kind = "s" -> LET rp == IF Pick(sd, t, j + 17, 5) = 0 THEN <<>> ELSE Elem(sd, t, j + 13, RepPool)
+                              re == Elem(sd, t, j + 12, PatPool)
+                          IN [k |-> "s", loc |-> loc, re |-> re, rep |-> rp,
+                              g |-> IF rp = <<>> /\ Pick(sd, t, j + 18, 2) = 0 THEN FALSE ELSE Pick(sd, t, j + 14, 2) = 0,
+                              (* 1: "s/re/", 2: "s/re" - only for a non-empty pattern (an empty one would end the command line early) *)
+                              short |-> IF re = <<>> THEN 0 ELSE Pick(sd, t, j + 19, 3)]
          [] kind \in {"g", "v"} -> [k |-> kind, loc |-> IF loc = <<>> \/ Pick(sd, t, j + 15, 3) = 0 THEN <<>> ELSE loc,
                                     re |-> Elem(sd, t, j + 12, PatPool),
                                     cmds |-> LET nc == 1 + Pick(sd, t, j + 13, 4) \div 3 IN
@@ -159,6 +163,7 @@ GenLineCmds(ed, sd, t) ==
     (* "rs" and "!" take the rest of their line; the commands of @ are a command line of their own (own undo step) *)
     (* after u / redo the rows of the marks are not constrained: no second command (it may address a mark) on that line *)
     IF Pick(sd, t, 50, 8) = 0 /\ c1.k \notin {"g", "v", "null", "rs", "!", "@", "u", "redo"}
+       /\ ~(c1.k = "s" /\ c1.short > 0 /\ c1.rep = <<>> /\ ~c1.g)        \* "s/re" and "s/re/" take the rest of their line as pattern / replacement
     THEN LET c2 == GenCmd(ed, sd, t, 60) IN IF c2.k \in {"null", "@"} THEN <<c1>> ELSE <<c1, c2>>
     ELSE <<c1>>
 
